@@ -55,6 +55,12 @@ pub enum Fault {
     /// binary: the source position recorded for every label := u64::MAX - back (a position no
     /// assembler run produces; only a damaged or hand-made object file carries it)
     LabelSrcNearMax { back: u64 },
+    /// binary: the leading numeric field of the k-th chunk (block / label / relocation address, line
+    /// number, source length) moved by a small amount: still plausible, no longer consistent
+    Nudge { k: u32, delta: i8 },
+    /// binary: the first relocation entry now names the address of a relocation entry of another
+    /// stored file (two files claiming the same word)
+    RelocFrom { other: usize },
 }
 #[derive(Clone, Debug, Serialize, Deserialize, PartialEq)]
 pub struct TScn {
@@ -610,6 +616,31 @@ fn apply_fault(bytes: &mut Vec<u8>, f: &Fault, others: &[Vec<u8>], text: bool) {
                 }
             }
         }
+        Fault::Nudge { k, delta } => {
+            let chunks = binary_chunks(bytes);
+            if !chunks.is_empty() {
+                let (p, id) = chunks[*k as usize % chunks.len()];
+                let wide = matches!(id, 2 | 3);
+                if wide && p + 9 <= bytes.len() {
+                    let v = u64::from_le_bytes(bytes[p + 1..p + 9].try_into().unwrap()).wrapping_add(*delta as i64 as u64);
+                    bytes[p + 1..p + 9].copy_from_slice(&v.to_le_bytes());
+                } else if !wide && p + 3 <= bytes.len() {
+                    let v = u16::from_le_bytes([bytes[p + 1], bytes[p + 2]]).wrapping_add(*delta as i16 as u16);
+                    bytes[p + 1..p + 3].copy_from_slice(&v.to_le_bytes());
+                }
+            }
+        }
+        Fault::RelocFrom { other } => {
+            let theirs = &others[*other % others.len().max(1)];
+            let src = binary_chunks(theirs).into_iter().find(|(_, id)| *id == 4).map(|(p, _)| p);
+            let dst = binary_chunks(bytes).into_iter().find(|(_, id)| *id == 4).map(|(p, _)| p);
+            if let (Some(ps), Some(pd)) = (src, dst) {
+                if ps + 3 <= theirs.len() && pd + 3 <= bytes.len() {
+                    let a = [theirs[ps + 1], theirs[ps + 2]];
+                    bytes[pd + 1..pd + 3].copy_from_slice(&a);
+                }
+            }
+        }
         Fault::BlockToTop { k, past } => {
             let chunks = binary_chunks(bytes);
             let code: Vec<usize> = chunks.iter().filter(|(_, id)| *id == 0).map(|(p, _)| *p).collect();
@@ -732,6 +763,12 @@ fn gen_faults(r: &mut Rng, sample: &[u8], text: bool, nfiles: usize) -> Vec<Faul
     }
     if !text && r.chance(1, 12) {
         v.push(Fault::LineTableNearMax { base: u64::MAX - r.below(12), step: r.below(6) });
+    }
+    if !text && r.chance(1, 6) {
+        v.push(Fault::Nudge { k: r.below(64) as u32, delta: *r.pick(&[1i8, 2, 3, 5, 8, -1, -2, -3, 16, -16]) });
+    }
+    if !text && nfiles > 1 && r.chance(1, 10) {
+        v.push(Fault::RelocFrom { other: r.below(nfiles as u64) as usize });
     }
     if !text && r.chance(1, 16) {
         v.push(Fault::LabelSrcNearMax { back: r.below(10) });
@@ -1226,7 +1263,7 @@ fn fault_name(f: &Fault) -> &'static str {
         Fault::Field { .. } | Fault::ReplaceInLine { .. } => "fired.disk-field",
         Fault::InvalidUtf8 { .. } => "fired.disk-utf8",
         Fault::RandomBytes(_) => "fired.disk-random",
-        Fault::LineTableNearMax { .. } | Fault::BlockToTop { .. } | Fault::LabelSrcNearMax { .. } => "fired.disk-field",
+        Fault::LineTableNearMax { .. } | Fault::BlockToTop { .. } | Fault::LabelSrcNearMax { .. } | Fault::Nudge { .. } | Fault::RelocFrom { .. } => "fired.disk-field",
     }
 }
 
